@@ -45,6 +45,9 @@ func (m *Mutex) Lock() {
 		return
 	}
 	if w.Dead() {
+		// teardown: killed tasks run their deferred calls one at a time; keep the
+		// happens-before edges of the lock so the race build stays quiet
+		kernel.RaceAcquire(unsafe.Pointer(m))
 		return
 	}
 	t := w.Me()
@@ -94,6 +97,7 @@ func (m *Mutex) Unlock() {
 		return
 	}
 	if w.Dead() {
+		kernel.RaceRelease(unsafe.Pointer(m))
 		m.locked = false
 		return
 	}
